@@ -295,7 +295,9 @@ def compare(run, stream, text, kw, real, in_domain, case=None):
 # ---------------------------------------------------------------------------------------------- generators
 
 PLAIN_SPELLINGS = ["5", "5.", ".5", "+3", "-4e2", "1E+2", "-999.25", "-9.9925E2", "007", "0", "-0.0", "12.75", "1e-3", "2500.125",
-                   "-.5", "3.14159", "1000000", "-7", "+0.25", "6E2"]
+                   "-.5", "3.14159", "1000000", "-7", "+0.25", "6E2",
+                   # close to the default NULL (-999.25) without being equal to it: the header NULL is an exact comparison
+                   "-999.251", "-999.2500001", "-999.24999", "-999.2499999999999", "-999.26"]
 BLANK_LINES = ["", " ", "   ", "\t", " \t "]
 COMMENT_LINES = ["#", "# comment", "#1 2 3", "  # indented comment", "#-", "\t#x 9"]
 SEPS = [" ", "  ", "   ", "\t", " \t", "\t ", "      "]
